@@ -101,6 +101,8 @@ FAMILIES = {
         # the application keeps issuing requests while the reconnect is under way
         {'family': 'reconnect', 'knobs': {'who': 'app', 'p_window': 1.0, 'p_fnf_then_request': 0.6, 'p_stale_fragments': 0.0, 'p_teardown_race': 0.0},
          'quick': 300, 'thorough': 4000, 'first': 200000},
+        # the next transport cannot be connected (server down): the application retries from on_connection_error
+        {'family': 'reconnect', 'knobs': {'p_connect_fail': 1.0, 'p_stale_fragments': 0.0}, 'quick': 200, 'thorough': 3000, 'first': 300000},
     ],
     'C20': [
         {'family': 'adapters', 'knobs': {'version': 'reactivex'}, 'quick': 300, 'thorough': 5000},
